@@ -121,17 +121,17 @@ func connCutStress(e *Env) {
 		case <-done:
 		case <-time.After(4 * time.Second):
 			snap := conn.VerifSnapshot()
-			e.fail("C03-caller-blocked-after-cut", fmt.Sprintf("4s after the peer went away some of %d concurrent callers were still blocked in Call (calls left registered: %d, shutdown flag: %v)", callers, len(snap.Pending), snap.Shutdown), desc)
+			e.fail(e.Res.Property+"-caller-blocked-after-cut", fmt.Sprintf("4s after the peer went away some of %d concurrent callers were still blocked in Call (calls left registered: %d, shutdown flag: %v)", callers, len(snap.Pending), snap.Shutdown), desc)
 			close(stop)
 			conn.Close()
 			return
 		}
 		close(stop)
 		if d := time.Duration(atomic.LoadInt64(&last) - cutAt.UnixNano()); d > 2*time.Second {
-			e.fail("C03-not-prompt", fmt.Sprintf("the last caller returned %v after the peer went away", d), desc)
+			e.fail(e.Res.Property+"-not-prompt", fmt.Sprintf("the last caller returned %v after the peer went away", d), desc)
 		}
 		if snap := conn.VerifSnapshot(); len(snap.Pending) != 0 {
-			e.fail("C03-residue-after-cut", fmt.Sprintf("%d calls are still registered on a connection that has ended", len(snap.Pending)), desc)
+			e.fail(e.Res.Property+"-residue-after-cut", fmt.Sprintf("%d calls are still registered on a connection that has ended", len(snap.Pending)), desc)
 		}
 		conn.Close()
 		e.count("cut-stress", fmt.Sprintf("cs-%d", round%30))
